@@ -566,21 +566,27 @@ func TestPipelines(t *testing.T) {
 		vkit.Watch(tPipe, "C02:terminates", time.Minute, func() any { return rc }, func() { runCase(t, rc) })
 		return
 	}
-	rapid.Check(t, func(t *rapid.T) {
-		c := Case{SkipAt: -1, ErrAt: -1}
-		c.Tree = genNode(t, rapid.IntRange(0, 6).Draw(t, "depth"), true)
-		c.Sink = rapid.SampledFrom(sinks).Draw(t, "sink")
-		n := len(model(c.Tree).seq)
-		switch c.Sink {
-		case "reduce", "itertool.reduce":
-			c.SkipAt = genAt(t, "sinkSkipAt", n)
-			c.ErrAt = genAt(t, "sinkErrAt", n)
-		case "contains":
-			c.Arg = rapid.IntRange(-2, 8).Draw(t, "item")
-		}
-		var nt bool
-		var cls []string
-		vkit.Watch(tPipe, "C02:terminates", time.Minute, func() any { return c }, func() { nt, cls = runCase(t, c) })
-		vkit.Case(tPipe, vkit.Hash(c), nt, cls, func() any { return c })
-	})
+	rapid.Check(t, propPipelines)
 }
+
+// propPipelines is the generated property; FuzzPipelines drives the same function with
+// the native coverage-guided fuzzer (rapid.MakeFuzz decodes the bytes).
+func propPipelines(t *rapid.T) {
+	c := Case{SkipAt: -1, ErrAt: -1}
+	c.Tree = genNode(t, rapid.IntRange(0, 6).Draw(t, "depth"), true)
+	c.Sink = rapid.SampledFrom(sinks).Draw(t, "sink")
+	n := len(model(c.Tree).seq)
+	switch c.Sink {
+	case "reduce", "itertool.reduce":
+		c.SkipAt = genAt(t, "sinkSkipAt", n)
+		c.ErrAt = genAt(t, "sinkErrAt", n)
+	case "contains":
+		c.Arg = rapid.IntRange(-2, 8).Draw(t, "item")
+	}
+	var nt bool
+	var cls []string
+	vkit.Watch(tPipe, "C02:terminates", time.Minute, func() any { return c }, func() { nt, cls = runCase(t, c) })
+	vkit.Case(tPipe, vkit.Hash(c), nt, cls, func() any { return c })
+}
+
+func FuzzPipelines(f *testing.F) { f.Fuzz(rapid.MakeFuzz(propPipelines)) }
